@@ -472,29 +472,36 @@ def whcsStep (tlsRef : String) (svc : Svc) (d : Dir) : P Res :=
 
 def storageVersion (c : Crd) : String := ((c.versions.find? (·.2)).map (·.1)).getD ""
 
+/-- "apply empty patch for storage version upgrade" to every listed resource -/
+def migrateCrs (crd : String) (l : List Cr) : P Res :=
+  forEach (fun (cr : Cr) => .call (.patchCr crd cr.name) (okOr "mig: patch")) l
+
+/-- Status().Patch of storedVersions, then "one more check just to be sure" -/
+def migrateFinish (crd storage : String) : P Res :=
+  .call (.patchCrdStored crd [storage]) fun r =>
+    match r with
+    | .ok =>
+      .call (.getCrd crd) fun r =>
+        match r with
+        | .crd c' => if c'.stored = [storage] then .ret .ok else .ret (.err "mig: check")
+        | _ => .ret (.err "mig: get")
+    | _ => .ret (.err "mig: status")
+
 def migrateStep (crd old : String) : P Res :=
   .call (.getCrd crd) fun r =>
     match r with
     | .err .notFound => .ret .ok
     | .crd c =>
-      if !c.stored.contains old then .ret .ok else
-      let storage := storageVersion c
-      .call (.listCrs crd) fun r =>
-        match r with
-        | .crs l =>
-          Prog.bind (forEach (fun (cr : Cr) => .call (.patchCr crd cr.name) (okOr "mig: patch")) l) fun r =>
-            match r with
-            | .ok =>
-              .call (.patchCrdStored crd [storage]) fun r =>
-                match r with
-                | .ok =>
-                  .call (.getCrd crd) fun r =>
-                    match r with
-                    | .crd c' => if c'.stored = [storage] then .ret .ok else .ret (.err "mig: check")
-                    | _ => .ret (.err "mig: get")
-                | _ => .ret (.err "mig: status")
-            | e => .ret e
-        | _ => .ret (.err "mig: list")
+      if c.stored.contains old then
+        .call (.listCrs crd) fun r =>
+          match r with
+          | .crs l =>
+            Prog.bind (migrateCrs crd l) fun r =>
+              match r with
+              | .ok => migrateFinish crd (storageVersion c)
+              | e => .ret e
+          | _ => .ret (.err "mig: list")
+      else .ret .ok
     | _ => .ret (.err "mig: get")
 
 /-! #### Lock, StoreConfig, DeploymentRuntimeConfig -/
